@@ -35,6 +35,8 @@ RULES = {
     'trypsin': r'(?<=[KR])(?=[^P])', 'trypsin/P': r'(?<=[KR])', 'lys-c': r'(?<=K)', 'lys-n': r'(?=K)',
     'arg-c': r'(?<=R)', 'asp-n': r'(?=D)', 'glu-c': r'(?<=E)', 'chymotrypsin': r'(?<=[FWYL])(?!P)',
     'proalanase': r'(?<=[PA])', 'elastase': r'(?<=[AGSVLI])', '([KR])': None, '(?=D)': r'(?=D)', '(?<=K)': r'(?<=K)',
+    # one rule whose matches have MIXED widths (a consumed residue or a look-behind): each match is a site of its own
+    'D|(?<=K)': r'D|(?<=K)',
 }
 DRT = ['str', 'annotation', 'span', 'str-span', 'annotation-span']
 WATER_MONO = 18.010564684
@@ -46,7 +48,8 @@ def own_sites(seq, rule):
     if rule == '([KR])':
         return sorted(set(m.start() + 1 for m in re.finditer(r'[KR]', seq)))
     pat = RULES[rule]
-    return sorted(set(m.start() for m in re.finditer(pat, seq)))
+    # a zero-width match cuts where it stands, a match that consumes residues cuts behind its first residue
+    return sorted(set(m.start() if m.end() == m.start() else m.start() + 1 for m in re.finditer(pat, seq)))
 
 
 # ------------------------------------------------------------------------------------------ plan generation
